@@ -680,13 +680,14 @@ def run_p17_p18(chk, repo):
     tm = repo.module('pharmpy.model.external.nonmem.records.theta_record')
     cls = tm.classes.get('ThetaRecord')
     n17 = 0
-    for f in ([cls.methods.get('update')] if cls and cls.methods.get('update') else []) + \
-            [m_ for nm, m_ in (cls.methods.items() if cls else []) if nm.startswith('_update')] + \
-            [g for g in tm.functions.values() if g.parent is not None and g.parent.name == 'update']:
+    # the code that rewrites one theta may be the method, a closure of it, a private method or a module-level function
+    for f in list(dict.values(tm.functions)):
         mult = {a.targets[0].id for a in ast.walk(f.node) if isinstance(a, ast.Assign) and isinstance(a.targets[0], ast.Name)
-                and ('_multiple' in unparse(a.value) or "subtree('n')" in unparse(a.value))}
-        calls = [c for c in calls_in(f.node) if dotted(c.func) == 'remove_parentheses']
-        if not calls:
+                and ('multiple' in unparse(a.value) or "subtree('n')" in unparse(a.value))}
+        calls = [c for c in calls_in(f.node) if dotted(c.func) == 'remove_parentheses'
+                 and not any(c is x for g_ in ast.walk(f.node) if isinstance(g_, ast.FunctionDef) and g_ is not f.node
+                             for x in ast.walk(g_))]
+        if not calls or f.name == 'remove_parentheses':
             continue
         cfg = CFG(f.node)
 
